@@ -11,6 +11,18 @@ pub const SEV_WARNING: u8 = 1;
 /// one the tape declares for this element (cell tag).  No heap data, so the value is cheap to
 /// move and drop.
 pub fn stub_read_xml(reader: &mut NsReader<&[u8]>, start: &BytesStart<'_>) -> Result<Error, ReadError> {
+    // Precondition, stated on the reader's own (constant) state: the event returned last is the
+    // start tag of an <rpc-error> in the base namespace.  Symex cannot fold the caller's match
+    // guard (the tag sits inside an enum payload), so it also walks into this stub on paths where
+    // the element is something else; those paths are infeasible, the assertion is vacuous on
+    // them and the early return ends them.  On a *feasible* path a violated precondition is a
+    // defect of the caller and is reported.
+    let last = reader.model_last_cell();
+    let on_rpc_error = last.kind == quick_xml::tape::kind::START && last.name == n::RPC_ERROR && last.ns == BASE;
+    assert!(on_rpc_error, "rpc::Error::read_xml called on an element that is not <rpc-error>");
+    if !on_rpc_error {
+        return Err(ReadError::NoMessageId);
+    }
     let tag = start.model_tag();
     let _ = reader.read_to_end(start.to_end().name())?;
     Ok(Error {
@@ -28,6 +40,8 @@ pub fn stub_read_xml(reader: &mut NsReader<&[u8]>, start: &BytesStart<'_>) -> Re
 /// `Vec::push`): a vector with room for 4 errors allocated up front and a push that never
 /// reallocates (it *asserts* that the capacity suffices).  `Vec::push` on a vector of symbolic
 /// length makes CBMC explore the reallocation path (symbolic-size memcpy) at every call.
+/// (A typed static buffer instead of the heap block, with deallocation stubbed out, was tried
+/// twice and changed nothing measurable.)
 pub fn stub_errors_new() -> Errors {
     Errors { inner: Vec::with_capacity(4) }
 }
